@@ -16,3 +16,5 @@ EXPLANATION = LEVEL_TEXT
 EXTRA_ASSUMPTIONS = [
     "ASSUMED contracts (not verified against their bodies here): TradingEnv._process_latent_events/_process_nonlatent_events (deliver events; quotes stay within the property's quantifier; only ever set _done), TradingEnv.notify for EventStep/EventDone (raises nothing), IState.__call__ (raises nothing), TrackRecord._checkpoint/__getitem__",
 ]
+
+USES_SUM_LEMMAS = True
